@@ -255,13 +255,44 @@ def P9(m, R):
                                 bound = True
                         if x.kind == 'except' and x.stmt is not None and x.stmt.name == rd.id:
                             bound = True
-                    if not bound:
+                    # entering a loop body (or reading inside one) depends on data: only report witnesses that reach the read without
+                    # taking any loop's body edge -- a loop can always run zero times
+                    enters = any(x.kind == 'loop' and any(l is True and s is p[i + 1] for l, s in x.succ) for i, x in enumerate(p[:-1]))
+                    if not bound and not enters:
                         wit = p
                         break
                 if wit is not None:
                     R.viol(f, holder, 'local `%s` is read here but not assigned on a path from the function entry (UnboundLocalError, which is neither of '
                                       'the documented error types)' % rd.id, construct='unbound %s in %s' % (rd.id, f.qual), witness=_path_text(wit, 14))
+    # names that are nothing at all: not a local, parameter, module-level name or builtin (NameError)
+    undefined = []
+    for f in m.funcs.values():
+        if f.mod.name in ('utils', '__init__'):
+            continue
+        known = set(f.params) | set(f.kwonly) | {f.vararg, f.kwarg, '__class__'} | modnames[f.mod.name]
+        for n in f.walk():
+            if isinstance(n, ast.stmt):
+                known |= _assigned_names(n)
+            if isinstance(n, ast.ExceptHandler) and n.name:
+                known.add(n.name)
+            if isinstance(n, (ast.ListComp, ast.SetComp, ast.GeneratorExp, ast.DictComp)):
+                for g in n.generators:
+                    known |= {y.id for y in ast.walk(g.target) if isinstance(y, ast.Name)}
+            if isinstance(n, ast.Lambda):
+                known |= {a.arg for a in n.args.args}
+            if isinstance(n, (ast.Import, ast.ImportFrom)):
+                known |= {(a.asname or a.name).split('.')[0] for a in n.names}
+        for md_st in f.mod.tree.body:
+            if isinstance(md_st, (ast.Import, ast.ImportFrom)):
+                known |= {(a.asname or a.name).split('.')[0] for a in md_st.names}
+        for n in f.walk():
+            if isinstance(n, ast.Name) and isinstance(n.ctx, ast.Load) and n.id not in known:
+                undefined.append((f, n))
+    for f, n in undefined:
+        R.viol(f, n, 'name `%s` is not defined anywhere (NameError when this line runs)' % n.id, construct='undefined %s in %s' % (n.id, f.qual))
     f0 = m.fn('AnsiString.__getitem__')
+    if not undefined:
+        R.ok(f0, f0.node, 'every name read in a function is a local, a parameter, a module-level name or a builtin', construct='undefined names')
     R.ok(f0, f0.node, '%d reads of locals checked package-wide: each is assigned on every path that reaches it' % n_checked, construct='definite assignment')
     # (3) no `-` between strings
     F = get_folder(m)
@@ -348,6 +379,8 @@ def P19(m, R):
             ps = [(p, e) for p, e in ps if p[-1] is head]
             kept = [(p, e) for p, e in ps if any(t == cur_set for t, _ in e.get('#ev', ())) or any(t == 'output' and value in a for t, a in e.get('#ev', ()))]
             skipped = [(p, e) for p, e in ps if (p, e) not in kept]
+            if flag and not is_int:
+                continue        # what happens to non-integer tokens under add_erroneous=True is outside the property (every *integer* token is kept)
             if flag:
                 R.check(not skipped and ps, f, loop, 'every %s token is kept (%d paths)' % ('integer' if is_int else 'non-integer', len(ps)),
                         'a %s token is dropped although add_erroneous=True' % ('integer' if is_int else 'non-integer'), construct=cons,
@@ -397,8 +430,11 @@ def P19(m, R):
             problems.append('the accumulator is not cleared after emission')
     sets = [n for n in ast.walk(loop) if isinstance(n, ast.Assign) and dec and norm(n.targets[0]) == norm(dec[0].target)]
     vals = sorted(norm(s.value) for s in sets)
-    if vals != ['1', 'fn.total_seq_count']:
-        problems.append('expected group length is set from %s, expected 1 or the matched function\'s total length' % vals)
+    if 'fn.total_seq_count' not in vals:
+        problems.append('the expected group length is never taken from the matched function (%s)' % vals)
+    for v in vals:
+        if v != 'fn.total_seq_count' and not (isinstance(const_val(ast.parse(v, mode='eval').body, None), int) and const_val(ast.parse(v, mode='eval').body) <= 1):
+            problems.append('a plain code is given the group length %s: the following codes are swallowed into its group' % v)
     R.check(not problems, f, loop, 'a group is 1 code or the matched function\'s total length; emitted and cleared when complete', '; '.join(problems), construct=cons)
 
 
@@ -718,8 +754,10 @@ def P12(m, R):
                     return cur['active']
                 if t == '%s.%s' % (point, ro.STOP):
                     return cur['stop']
-                if t.startswith('%s > len(' % idx):
+                if t.startswith('%s > len(' % idx) or t.startswith('%s >= len(' % idx):
                     return cur['reg'] == '>en'
+                if t == '%s.%s' % (point, ro.START):
+                    return cur['stop']      # only consulted at the end point, where copying is optional anyway
                 if ' not in %s' % tblnew in t:
                     return True
                 return None
@@ -802,7 +840,9 @@ def P12(m, R):
                 add('seed-missing', 'settings active at the start of the slice are not seeded at key 0', scen)
             if not want_seed and seeds:
                 add('seed-spurious', 'key 0 is seeded although nothing is active at the start of the slice', scen)
-            if len(seeds) > 1:
+            # a repeated seed with the same (acceptable) content is harmless
+            alt0 = ('snap', want_src[1]) if (want_src and want_src[0] == 'active') else None
+            if len(seeds) > 1 and not all(sd[2] in (want_src, alt0) for sd in seeds):
                 add('seed-twice', 'key 0 is seeded %d times (the later one overwrites the first with settings of a later position)' % len(seeds), scen)
             # at the '=start' point the iterator's list and a snapshot taken in that very iteration hold the same settings
             alt = ('snap', want_src[1]) if (want_src and want_src[0] == 'active') else None
